@@ -73,6 +73,7 @@ type listT struct {
 	Apply   bool   `json:"apply,omitempty"`
 	NoOpts  bool   `json:"no_opts,omitempty"` // call without any option (defaults: page 1024)
 	Prefix  string `json:"prefix,omitempty"`  // label prefix filter
+	Minimal bool   `json:"minimal,omitempty"` // bundles: WithMinimalBundle (IDs only, as squash lists them)
 }
 
 type caseT struct {
@@ -415,6 +416,9 @@ func drawMany(t *rapid.T) caseT {
 	}
 	c.Lists = append(c.Lists, listT{Kind: kind, NoOpts: true, Apply: rapid.Bool().Draw(t, "many_apply")},
 		listT{Kind: kind, Batch: rapid.IntRange(64, 2048).Draw(t, "many_batch"), Conc: drawConc(t)})
+	if kind == "bundles" {
+		c.Lists = append(c.Lists, listT{Kind: kind, Batch: rapid.IntRange(64, 2048).Draw(t, "many_batch_min"), Conc: drawConc(t), Minimal: true, Apply: rapid.Bool().Draw(t, "many_apply_min")})
+	}
 	return c
 }
 
@@ -551,6 +555,9 @@ func drawCase(t *rapid.T) caseT {
 		}
 		l.Apply = rapid.Bool().Draw(t, "apply")
 		l.NoOpts = rapid.IntRange(0, 11).Draw(t, "noopts") == 0
+		if l.Kind == "bundles" {
+			l.Minimal = rapid.IntRange(0, 2).Draw(t, "minimal") == 0
+		}
 		c.Lists = append(c.Lists, l)
 	}
 	for i := 0; i < rapid.IntRange(1, 2).Draw(t, "n_lrepos"); i++ {
